@@ -666,7 +666,7 @@ func init() {
 			nv = 8
 		}
 		return []CaseSet{cs},
-			fmt.Sprintf("the real fitgen command on the 5 bundled workbooks (as .xlsx with -sdk and wrapped into an SDK zip) and %d product-profile variant(s) per workbook obtained by disabling random sets of field rows that nothing depends on, dependency-closed groups around referenced rows (always heart_rate_source_type, for which the generator has a named quirk), and the -hrst flag (edited in the workbook XML), each run twice: exit status, byte-identical outputs, declared SDK version, lookup table and struct fields extracted from the generated sources equal the table computed from the independently read workbook rows (also computed by the Lean model), compilation with the minimal support set; compilation with the whole library is expected to fail for the bundled (older) workbooks (known finding D16)", nv), false
+			fmt.Sprintf("the real fitgen command on the 5 bundled workbooks (as .xlsx with -sdk, wrapped into an SDK zip named after the version, and as SDK zips whose name carries no version or another one together with -sdk) and %d product-profile variant(s) per workbook obtained by disabling random sets of field rows that nothing depends on, dependency-closed groups around referenced rows (always heart_rate_source_type, for which the generator has a named quirk), and the -hrst flag (edited in the workbook XML), each run twice: exit status, byte-identical outputs, declared SDK version, lookup table and struct fields extracted from the generated sources equal the table computed from the independently read workbook rows (also computed by the Lean model), compilation with the minimal support set; compilation with the whole library is expected to fail for the bundled (older) workbooks (known finding D16)", nv), false
 	}
 	propPost["C19"] = postC19
 }
@@ -883,6 +883,23 @@ func postC19(res *RunResult) {
 					addViolation(res, "fitgen "+zp, d, "zip input and xlsx input give different sources: "+d)
 				}
 				runs++
+				// the SDK zip together with -sdk: the flag provides the version when the archive name
+				// carries none, and overrides the one it carries
+				for zi, zn := range []string{"sdk.zip", "FitSDKRelease_1.02.00.zip"} {
+					zq := filepath.Join(work, zn)
+					os.WriteFile(zq, zb.Bytes(), 0o644)
+					out4 := filepath.Join(work, fmt.Sprintf("o4_%d", zi))
+					if lg, err := runFitgen(bin, []string{"-sdk", sdk, zq}, out4); err != nil {
+						addViolation(res, "fitgen -sdk "+sdk+" "+zn, clip(lg), "fitgen failed on an SDK zip input with the version given by -sdk")
+					} else if d := declaredVersion(out4, sdk); d != "" {
+						addViolation(res, "fitgen -sdk "+sdk+" "+zn, d, d)
+					} else if d := sameOutputs(out1, out4); d != "" {
+						addViolation(res, "fitgen -sdk "+sdk+" "+zn, d, "zip input with -sdk and xlsx input give different sources: "+d)
+					}
+					os.RemoveAll(out4)
+					os.Remove(zq)
+					runs++
+				}
 			}
 			// (a) generated sources + minimal support set
 			if outp, err := compileWith(out1, filepath.Join(work, "modA"), minimalSupport, false); err != nil {
